@@ -97,6 +97,9 @@ def iparse_number_array(arr):
 
 
 def parse_criteria(criteria):
+    if not isinstance(criteria, string_types):
+        # a bare value (number, logical) means equality
+        return lambda a: a == criteria
     match = REGEX_CRITERIA.match(criteria)
     op = match.group('op')
     val = match.group('val')
